@@ -20,10 +20,21 @@ from concurrent.futures import ThreadPoolExecutor
 import vlib, compilerun
 
 
+_CREATED = []
+
+
+def cleanup_includes():
+    """remove the INCLUDE directories this process created (reports carry the file texts, not the paths)"""
+    import shutil
+    while _CREATED:
+        shutil.rmtree(_CREATED.pop(), ignore_errors=True)
+
+
 def write_includes(files, tag):
     """materialise {name: text} under build/scratch/includes/<tag>; returns the directory (INCLUDE base)"""
     d = os.path.join(vlib.SCRATCH, "includes", tag)
     os.makedirs(d, exist_ok=True)
+    _CREATED.append(d)
     for n, t in files.items():
         p = os.path.join(d, n)
         if not os.path.exists(p) or open(p, encoding="utf-8").read() != t:
